@@ -36,6 +36,11 @@ CONSTANTS
   Modes,       \* pinned sets: subset of {"none", "terminals", "disabled"}
   QIds,        \* ids of the link configurations the environment offers (SpecOps)
   MaxCalls,    \* SpecOps: sequences of 1..MaxCalls vector potentials
+  DForms,      \* SpecOps: how the caller hands a potential over: subset of {"fresh", "inplace", "view"}
+               \*   "fresh"   a newly allocated array per call
+               \*   "inplace" the caller keeps ONE work buffer, overwrites it in place and passes the same object again
+               \*   "view"    the caller overwrites a base buffer and passes a view / slice of it (shares its memory)
+               \* All are equivalent ways of delivering the sequence A_1..A_n.
   Scrs,        \* SpecStep: subset of BOOLEAN  (include_screening)
   Dyns,        \* SpecStep: subset of BOOLEAN  (time-dependent applied potential)
   Vs,          \* SpecStep: subset of {"zero", "nonzero", "none"} (terminal_psi class)
@@ -60,6 +65,8 @@ CONSTANTS
   MBothHalves, \* TRUE [code]: both the U and the conj(U) entries are rewritten; FALSE: mutant
   MFreshLinks, \* TRUE [code]: link variables recomputed on every call; FALSE: mutant (cached from first refresh)
   MFixPsi,     \* TRUE [code]: rows are pinned only when fix_psi; FALSE: mutant (fix_psi ignored)
+  MSkipEqual,  \* FALSE [code]: every call rebuilds / refreshes; TRUE: mutant ("already up to date" short-cut: return
+               \* when the incoming array compares equal to self.link_exponents, which is a REFERENCE to the caller's array)
   MFixFlag     \* "at_use" [code]: fix_psi = (terminal_psi is not None) is read when the solver is constructed;
                \* "at_construction": mutant (computed once when the options object is constructed: stale after an
                \* attribute assignment)
@@ -168,7 +175,11 @@ VARIABLES
   linkQ,     \* the link configuration last handed to set_link_exponents (operators.link_exponents)
   firstQ,    \* link configuration of the first refresh (used only by the MFreshLinks = FALSE mutant)
   calls,     \* number of set_link_exponents calls so far
-  hist,      \* history of the ids handed in (SpecOps; exported for replay)
+  hist,      \* history of [q |-> id, f |-> delivery form] handed in (SpecOps; exported for replay)
+  \* ---- aliasing: operators.link_exponents = xp.asarray(arg) is a reference to the caller's array ----
+  heldBuf,   \* what self.link_exponents refers to: 0 = an array nobody else writes to, 1 = the caller's work buffer
+  heldVal,   \* its content when heldBuf = 0
+  bufQ,      \* current content of the caller's work buffer (views share it)
   \* ---- solver level (SpecStep) ----
   pc, step, s,
   curA,      \* applied potential of this step (integer level)
@@ -180,7 +191,8 @@ VARIABLES
 
 opsvars == <<built, lap, grad, freeRows, linkQ, firstQ, calls>>
 stepvars == <<pc, step, s, curA, prevA, ind, tv, drifted>>
-vars == <<cfg, opsvars, hist, stepvars>>
+aliasvars == <<heldBuf, heldVal, bufQ>>
+vars == <<cfg, opsvars, aliasvars, hist, stepvars>>
 
 M == InstData[cfg.inst]
 FixedSites == IF cfg.mode = "none" THEN {} ELSE M.term      \* MeshOperators.fixed_sites
@@ -235,20 +247,36 @@ Cfgs == {c \in [inst : Insts, mode : Modes, scr : Scrs, dyn : Dyns, v : Vs, seed
 
 InitCommon ==
   /\ built = FALSE /\ lap = <<>> /\ grad = <<>> /\ freeRows = <<>> /\ linkQ = <<>> /\ firstQ = <<>>
-  /\ calls = 0 /\ hist = <<>>
+  /\ calls = 0 /\ hist = <<>> /\ heldBuf = 0 /\ heldVal = <<>> /\ bufQ = <<>>
   /\ step = 0 /\ s = 0 /\ curA = 0 /\ prevA = 0 /\ ind = 0 /\ tv = "unset" /\ drifted = FALSE
 
 InitOps == /\ cfg \in [inst : Insts, mode : Modes, scr : {FALSE}, dyn : {FALSE}, v : {"zero"}, seed : {"configured"},
                           form : {"keyword"}, v0 : {"zero"}]
            /\ InitCommon /\ pc = "ops"
 
-OpsCall(k) == /\ pc = "ops" /\ calls < MaxCalls
-              /\ SetLinkExponents(QOfId(M, k))
-              /\ hist' = Append(hist, k)
-              /\ UNCHANGED <<cfg, stepvars>>
-OpsBuild == ~built /\ \E k \in QIds : OpsCall(k)       \* first call: builds
-OpsRefresh == built /\ \E k \in QIds : OpsCall(k)      \* later calls: refresh in place
-NextOps == OpsBuild \/ OpsRefresh
+(* One call of set_link_exponents as the caller sees it.  With "inplace"/"view" the caller first writes the new *)
+(* potential into its buffer - so what self.link_exponents shows at that moment is the NEW value when it        *)
+(* refers to that buffer.                                                                                         *)
+SeenHeld(q, f) == IF heldBuf = 1 THEN (IF f = "fresh" THEN bufQ ELSE q) ELSE heldVal
+OpsCall(k, f) ==
+  LET q == QOfId(M, k) IN
+  /\ pc = "ops" /\ calls < MaxCalls
+  /\ bufQ' = IF f = "fresh" THEN bufQ ELSE q
+  /\ IF MSkipEqual /\ built /\ SeenHeld(q, f) = q
+       THEN \* mutant: returns before touching anything (not even self.link_exponents)
+            /\ linkQ' = q /\ calls' = calls + 1
+            /\ UNCHANGED <<built, lap, grad, freeRows, firstQ, heldBuf, heldVal>>
+       ELSE /\ SetLinkExponents(q)
+            /\ heldBuf' = IF f = "fresh" THEN 0 ELSE 1
+            /\ heldVal' = q
+  /\ hist' = Append(hist, [q |-> k, f |-> f])
+  /\ UNCHANGED <<cfg, stepvars>>
+OpsBuild == ~built /\ \E k \in QIds, f \in DForms : OpsCall(k, f)                   \* first call: builds
+OpsRefresh == built /\ \E k \in QIds : OpsCall(k, "fresh")                          \* later calls: refresh in place
+\* the same memory is delivered again (possibly with new content): buffer passed before, overwritten, passed again
+OpsRefreshAliased == built /\ heldBuf = 1 /\ \E k \in QIds, f \in DForms \ {"fresh"} : OpsCall(k, f)
+OpsRefreshFirstAlias == built /\ heldBuf = 0 /\ \E k \in QIds, f \in DForms \ {"fresh"} : OpsCall(k, f)
+NextOps == OpsBuild \/ OpsRefresh \/ OpsRefreshAliased \/ OpsRefreshFirstAlias
 SpecOps == InitOps /\ [][NextOps]_vars
 
 -----------------------------------------------------------------------------
@@ -266,20 +294,20 @@ Ctor ==
   /\ tv' = IF cfg.v = "none" THEN "free"
            ELSE IF cfg.seed = "configured" \/ FixedSites = {} THEN "eq" ELSE "seed"
   /\ pc' = "idle"
-  /\ UNCHANGED <<cfg, hist, step, s, curA, prevA, ind, drifted>>
+  /\ UNCHANGED <<cfg, hist, aliasvars, step, s, curA, prevA, ind, drifted>>
 
 BeginStep ==
   /\ pc = "idle" /\ step < MaxSteps
   /\ pc' = IF cfg.dyn THEN "field" ELSE "loop"
   /\ s' = 0
-  /\ UNCHANGED <<cfg, hist, opsvars, step, curA, prevA, ind, tv, drifted>>
+  /\ UNCHANGED <<cfg, hist, aliasvars, opsvars, step, curA, prevA, ind, tv, drifted>>
 
 \* update_applied_vector_potential(time): the environment moves along the chain
 Field(a) ==
   /\ pc = "field"
   /\ curA' = a
   /\ pc' = "trigger"
-  /\ UNCHANGED <<cfg, hist, opsvars, step, s, prevA, ind, tv, drifted>>
+  /\ UNCHANGED <<cfg, hist, aliasvars, opsvars, step, s, prevA, ind, tv, drifted>>
 
 Changed == IF MTrigger = "prev_close" THEN ~Close(curA, prevA) ELSE curA # prevA
 
@@ -288,25 +316,25 @@ TrigRefresh ==
   /\ Refresh(QOfPot(M, curA, 0))          \* set_link_exponents(current_A_applied): applied part only
   /\ prevA' = curA
   /\ pc' = "loop"
-  /\ UNCHANGED <<cfg, hist, step, s, curA, ind, tv, drifted>>
+  /\ UNCHANGED <<cfg, hist, aliasvars, step, s, curA, ind, tv, drifted>>
 
 TrigSkip ==
   /\ pc = "trigger" /\ ~Changed
   /\ prevA' = curA                          \* self.current_A_applied is overwritten every step
   /\ pc' = "loop"
-  /\ UNCHANGED <<cfg, hist, opsvars, step, s, curA, ind, tv, drifted>>
+  /\ UNCHANGED <<cfg, hist, aliasvars, opsvars, step, s, curA, ind, tv, drifted>>
 
 \* screening: set_link_exponents(current_A_applied + A_induced) in every iteration
 Links ==
   /\ pc = "loop" /\ cfg.scr
   /\ Refresh(QOfPot(M, curA, ind))
   /\ pc' = "euler"
-  /\ UNCHANGED <<cfg, hist, step, s, curA, prevA, ind, tv, drifted>>
+  /\ UNCHANGED <<cfg, hist, aliasvars, step, s, curA, prevA, ind, tv, drifted>>
 
 NoLinks ==
   /\ pc = "loop" /\ ~cfg.scr
   /\ pc' = "euler"
-  /\ UNCHANGED <<cfg, hist, opsvars, step, s, curA, prevA, ind, tv, drifted>>
+  /\ UNCHANGED <<cfg, hist, aliasvars, opsvars, step, s, curA, prevA, ind, tv, drifted>>
 
 (* The Euler step on a terminal site.  With an identity row (L psi)_i = psi_i, so the   *)
 (* update of psi_i is  psi_i + dt/u sqrt(..) ((eps - |psi_i|^2) psi_i + psi_i): it      *)
@@ -329,7 +357,7 @@ Euler(retried) ==
   /\ tv' = EulerValue(retried)
   /\ drifted' = (drifted \/ tv' = "drift")
   /\ pc' = IF cfg.scr THEN "induced" ELSE "finish"
-  /\ UNCHANGED <<cfg, hist, opsvars, step, s, curA, prevA, ind>>
+  /\ UNCHANGED <<cfg, hist, aliasvars, opsvars, step, s, curA, prevA, ind>>
 EulerStep == pc = "euler" /\ \E retried \in BOOLEAN : Euler(retried)
 
 \* get_induced_vector_potential: a new induced potential (or, converged exactly, the same)
@@ -338,13 +366,13 @@ Induced(chg, again) ==
   /\ ind' = ind + chg
   /\ IF again THEN /\ s < MaxIter /\ s' = s + 1 /\ pc' = "loop"
               ELSE /\ s' = s /\ pc' = "finish"
-  /\ UNCHANGED <<cfg, hist, opsvars, step, curA, prevA, tv, drifted>>
+  /\ UNCHANGED <<cfg, hist, aliasvars, opsvars, step, curA, prevA, tv, drifted>>
 
 Finish ==
   /\ pc = "finish"
   /\ step' = step + 1
   /\ pc' = "idle"
-  /\ UNCHANGED <<cfg, hist, opsvars, s, curA, prevA, ind, tv, drifted>>
+  /\ UNCHANGED <<cfg, hist, aliasvars, opsvars, s, curA, prevA, ind, tv, drifted>>
 
 InducedStep == pc = "induced" /\ \E chg \in {0, 1}, again \in BOOLEAN : (ind + chg <= IMax) /\ Induced(chg, again)
 FieldStep == pc = "field" /\ \E a \in 0..AMax : Field(a)
@@ -397,15 +425,16 @@ LapSeq(m, L) == [i \in SitesOf(m) |-> [j \in SitesOf(m) |-> L[i, j]]]
 GradSeq(m, G) == [e \in EdgesOf(m) |-> [j \in SitesOf(m) |-> G[e, j]]]
 \* every maximal sequence (its prefixes are the shorter sequences)
 EmitSeq == (pc = "ops" /\ calls = MaxCalls) =>
-             PrintT(ToJson([kind |-> "seq", inst |-> cfg.inst, mode |-> cfg.mode, seq |-> hist]))
+             PrintT(ToJson([kind |-> "seq", inst |-> cfg.inst, mode |-> cfg.mode, seq |-> [n \in 1..Len(hist) |-> hist[n].q],
+                            forms |-> [n \in 1..Len(hist) |-> hist[n].f]]))
 \* the instance and, per (instance, pinned set, link configuration), the matrices a fresh build must give
 EmitExpected == (pc = "ops" /\ calls = 1) =>
-             PrintT(ToJson([kind |-> "expect", inst |-> cfg.inst, mode |-> cfg.mode, q |-> hist[1],
-                            qv |-> QOfId(M, hist[1]), lap |-> LapSeq(M, lap), grad |-> GradSeq(M, grad),
+             PrintT(ToJson([kind |-> "expect", inst |-> cfg.inst, mode |-> cfg.mode, q |-> hist[1].q,
+                            qv |-> QOfId(M, hist[1].q), lap |-> LapSeq(M, lap), grad |-> GradSeq(M, grad),
                             n |-> M.n, edges |-> M.edges, w |-> M.w, len |-> M.len, area |-> M.area,
                             fixed |-> [i \in SitesOf(M) |-> i \in FixedSites], fixpsi |-> FixPsi]))
 
 \* hide the history when checking properties
-ViewOps == <<cfg, opsvars, stepvars>>
+ViewOps == <<cfg, opsvars, aliasvars, stepvars>>
 ViewStep == <<cfg, built, lap, grad, freeRows, linkQ, firstQ, stepvars>>
 =============================================================================
